@@ -14,8 +14,8 @@ RULE = ("One of 12 component classes is drawn, then its parameters (well-typed, 
         "component is constructed and elaborated three times to RTLIL under a 60 s watchdog. "
         "Non-trivial = construction accepted, all three elaborations ran, and the component has >= 2 "
         "sub-objects (registers, windows, initiators, sources, pins, fields). Distinct = canonical JSON.")
-BUDGET = {"quick": (16, 120), "thorough": (16, 2500)}
-ESSENTIAL = ["cls:" + c for c in components.CLASSES] + ["refused_at_construction"]
+BUDGET = {"quick": (16, 400), "thorough": (16, 6000)}
+ESSENTIAL = ["cls:" + c for c in components.CLASSES] + ["refused_at_construction", "packed:ok", "packed:refused"]
 ASSUMPTIONS = [
     "parameters are well-typed (ints for widths/counts, strings for modes/features, shape-like objects for shapes)",
     "deliberate refusal = ValueError/TypeError raised by an explicit `raise` statement inside amaranth_soc or amaranth whose raised class is the class caught",
@@ -88,13 +88,72 @@ def check(spec, stats):
         signal.signal(signal.SIGALRM, old)
 
 
+def _check_packed(spec, stats):
+    """Exhaustive family: three/four rw registers of given word sizes packed with given gaps (not
+    naturally aligned), finite sharing limit: elaboration must terminate, twice, with the same
+    outcome (hardware, or a deliberate refusal)."""
+    from amaranth.hdl import Fragment
+    from amaranth_soc import csr
+    from amaranth_soc.memory import MemoryMap
+    from vlib.gens import MockReg
+    p = spec["p"]
+    cur, ranges = 0, []
+    for sz, g in zip(p["sizes"], p["gaps"]):
+        ranges.append((cur + g, sz))
+        cur += g + sz
+    mm = MemoryMap(addr_width=max(1, (cur - 1).bit_length()), data_width=p["dw"])
+    for i, (a, sz) in enumerate(ranges):
+        mm.add_resource(MockReg(sz * p["dw"], "rw"), name=(f"r{i}",), addr=a, size=sz)
+    mux = csr.Multiplexer(mm, shadow_overlaps=p["ov"])
+    outcomes = []
+    for k in range(2):
+        try:
+            Fragment.get(mux, None)
+            outcomes.append("ok")
+        except RecursionError as e:
+            raise Violation(f"C19/elab/{_site(e)}", f"packed layout {ranges} shadow_overlaps={p['ov']}: "
+                            f"RecursionError in elaboration #{k + 1}")
+        except Exception as e:
+            if deliberate_refusal(e):
+                outcomes.append("refused")
+            elif classify_exception(e) is None:
+                raise
+            else:
+                raise Violation(f"C19/elab/{_site(e)}", f"packed layout {ranges} shadow_overlaps={p['ov']}: "
+                                f"{type(e).__name__}: {str(e)[:200]}")
+    if outcomes[0] != outcomes[1]:
+        raise Violation("C19/repeatability/mux_packed", f"{ranges} ov={p['ov']}: outcomes {outcomes}")
+    stats.label("packed:" + outcomes[0])
+    stats.nontrivial = True
+
+
+def exhaustive(tier):
+    import itertools
+    sizes = [1, 2, 3, 5, 6, 7]
+    gaps = [0, 1, 2, 3]
+
+    def gen(n, ovs):
+        for sz in itertools.product(sizes, repeat=n):
+            for gp in itertools.product(gaps, repeat=n):
+                for ov in ovs:
+                    yield {"cls": "mux_packed", "p": {"sizes": list(sz), "gaps": list(gp), "ov": ov, "dw": 1}}
+    parts = [("mux_packed_3regs_sizes{1,2,3,5,6,7}_gaps0-3_ov{0,1,2}", gen(3, [0, 1, 2]))]
+    if tier == "thorough":
+        parts.append(("mux_packed_4regs_sizes{1,2,3,5,6,7}_gaps0-3_ov{1,2}", gen(4, [1, 2])))
+    return parts
+
+
 def _check(spec, stats, cls):
+    if cls == "mux_packed":
+        return _check_packed(spec, stats)
     try:
         built = components.build(spec)
     except Exception as e:
         if deliberate_refusal(e):
             stats.label("refused_at_construction")
             return
+        if classify_exception(e) is None:
+            raise          # the harness itself failed: no verdict
         raise Violation(f"C19/construct/{_site(e)}", f"{cls}: construction failed with an internal "
                         f"error {type(e).__name__}: {str(e)[:300]}")
     comp = built.comp
@@ -111,6 +170,8 @@ def _check(spec, stats, cls):
                 if metadata(comp) != meta0:
                     raise Violation("C19/purity/refused-elab-changed-metadata", f"{cls}")
                 return
+            if classify_exception(e) is None:
+                raise
             which = "elab" if k == 0 else "re-elab"
             raise Violation(f"C19/{which}/{_site(e)}", f"{cls}: elaboration #{k + 1} failed with "
                             f"{type(e).__name__}: {str(e)[:300]}")
@@ -124,6 +185,7 @@ def _check(spec, stats, cls):
         raise Violation(f"C19/repeatability/{cls}", f"elaboration #{which} produced different RTLIL "
                         f"than #1 (lengths {[len(t) for t in texts]})")
     stats.label("elaborated_3x")
+    stats.label("ok:" + cls)
     stats.add("rtlil_bytes", len(texts[0]))
     stats.nontrivial = built.subobjects >= 2
 
